@@ -208,7 +208,10 @@ impl<'tree> SwitchStatement<'tree> {
         let switch_body_node = astutil::get_child_by_field_name(switch_node, "body")?;
         let mut cases = Vec::new();
         let mut default = None;
-        for (i, node) in switch_body_node.named_children(cursor).enumerate() {
+        let clause_nodes = switch_body_node
+            .named_children(cursor)
+            .filter(|n| !n.is_extra());
+        for (i, node) in clause_nodes.enumerate() {
             match node.kind() {
                 "switch_case" => {
                     let value =
